@@ -424,6 +424,7 @@ class OplEncoder {
                         if (i) s += ',';
                         s += "n" + std::to_string(o.nodes[i].ref);
                         if (o.nodes[i].x != UNDEF) s += "x" + coord_text(o.nodes[i].x, rng) + "y" + coord_text(o.nodes[i].y, rng);
+                        else if (rng.chance(1, 3)) s += "xy";   // what the library's writer emits for an undefined location
                     }
                     f.push_back(s);
                 }
